@@ -67,12 +67,31 @@ fn mutate(r: &mut Rng, c: &Corpus, base: &str, k: usize) -> String {
     let mut t = toks(base);
     for _ in 0..k {
         if t.is_empty() { break }
-        match r.below(6) {
+        match r.below(9) {
             0 => { let i = r.below(t.len()); t.remove(i); }
             1 => { let i = r.below(t.len() + 1); t.insert(i, r.pick(&c.toks).clone()); }
             2 => { let i = r.below(t.len()); t[i] = r.pick(&c.toks).clone(); }
             3 => { let i = r.below(t.len()); let j = r.below(t.len()); t.swap(i, j); }
             4 => { let i = r.below(t.len()); let x = t[i].clone(); t.insert(i, x); }
+            6 | 7 => {
+                // inside a matrix: another modifier (±, alpha, inverted alpha) or another feature name (any synonym, incl. tone/length/stress)
+                let ms: Vec<usize> = t.iter().enumerate().filter(|(_, x)| x.starts_with('[') && x.len() > 2).map(|x| x.0).collect();
+                if ms.is_empty() { continue }
+                let i = *r.pick(&ms);
+                let closed = t[i].ends_with(']');
+                let body: String = t[i].trim_start_matches('[').trim_end_matches(']').to_string();
+                let mut items: Vec<String> = body.split(',').map(|x| x.trim().to_string()).collect();
+                let j = r.below(items.len());
+                let it = items[j].clone();
+                let (pre, name): (String, String) = { let cs: Vec<char> = it.chars().collect(); let mut k = 0; if k < cs.len() && cs[k] == '-' { k += 1 } if k < cs.len() && (cs[k] == '+' || cs[k].is_uppercase() || ('α'..='ω').contains(&cs[k])) && !(k == 0 && cs[0] == '-' && false) { k += 1 } if it.starts_with('-') && k == 1 { (cs[..1].iter().collect(), cs[1..].iter().collect()) } else { (cs[..k].iter().collect(), cs[k..].iter().collect()) } };
+                let names: Vec<&str> = FEATS.iter().chain(NODES.iter()).chain(SUPRAS.iter()).cloned().chain(["tone", "tn", "ton", "root", "manner", "laryngeal"].into_iter()).collect();
+                items[j] = match r.below(3) {
+                    0 => format!("{}{}", ["+", "-", "A", "α", "-A", "-α", "B", "", "±"][r.below(9)], name.trim()),
+                    1 => { let n = *r.pick(&names); let syn = synonyms(n); format!("{pre}{}", if syn.is_empty() { n } else { syn[r.below(syn.len())] }) }
+                    _ => format!("{}:{}", ["tone", "long", "stress", "Atone", "+tone"][r.below(5)], r.pick(&NUMS)),
+                };
+                t[i] = format!("[{}{}", items.join(", "), if closed { "]" } else { "" });
+            }
             _ => { let digits: Vec<usize> = t.iter().enumerate().filter(|(_, x)| x.chars().all(|c| c.is_ascii_digit())).map(|x| x.0).collect();
                    if digits.is_empty() { let i = r.below(t.len() + 1); t.insert(i, r.pick(&NUMS).to_string()); } else { let i = *r.pick(&digits); t[i] = r.pick(&NUMS).to_string(); } }
         }
